@@ -30,8 +30,8 @@ package opchild
 //@        && implements(val(val(ExecutorChangePlans[g]).NextValidator.ConsensusPubkey).cachedValue, "github.com/cosmos/cosmos-sdk/crypto/types.PubKey")   // INV_PLAN (RegisterExecutorChangePlan)
 //@   requires forall k bytes :: Validators[k] != None ==> implements(val(val(Validators[k]).ConsensusPubkey).cachedValue, "github.com/cosmos/cosmos-sdk/crypto/types.PubKey")    // INV_VAL K4 (NewValidator packs a key)
 //@   ensures found ==> err == nil                                                                                                            // C14: block_processing_does_not_fail_because_of_the_plan
-//@   ensures err == nil && !found ==> Params == old(Params)                                                                                // C14: no_plan_no_executor_change
-//@   ensures err == nil && found ==> Params != None && val(Params).BridgeExecutors == plan.NextExecutors                                   // C14: executors_become_the_plan_list
+//@   ensures err == nil && !found ==> Params == old(Params)                                                                                // C14,C12: no_plan_no_executor_change
+//@   ensures err == nil && found ==> Params != None && val(Params).BridgeExecutors == plan.NextExecutors                                   // C14,C12: executors_become_the_plan_list
 //@   ensures err == nil && found ==> Validators[pva] == Some(plan.NextValidator) && LastValidatorPowers[pva] == Some(1)                    // C14: plan_validator_bonded
 //@   ensures err == nil && found ==> forall k bytes :: LastValidatorPowers[k] != None ==> k == pva                                         // C14: plan_validator_is_the_only_bonded_one
 //@   ensures err == nil ==> forall k bytes :: LastValidatorPowers[k] != None ==> Validators[k] != None && val(Validators[k]).ConsPower > 0
